@@ -135,6 +135,11 @@ func Run(r *core.Run) {
 		}
 	}
 	docs = append(docs, M{"service": []any{svcB, svcA}}, M{"alsoKnownAs": []any{"https://only.example/"}}, M{})
+	// keys and services have separate id spaces: a service may carry the id of a key (and two services those of two keys)
+	docs = append(docs,
+		M{"publicKey": []any{mkKey("hub", "JsonWebKey2020", "jwk", []any{"authentication"}, 1)}, "service": []any{M{"id": "hub", "type": "A", "serviceEndpoint": "https://hub.example/"}}},
+		M{"publicKey": []any{mkKey("a", "JsonWebKey2020", "jwk", []any{"authentication"}, 1), mkKey("b", "Ed25519VerificationKey2018", "jwk", []any{"assertionMethod"}, 2)},
+			"service": []any{M{"id": "b", "type": "B", "serviceEndpoint": "https://b.example/"}, M{"id": "c", "type": "C", "serviceEndpoint": "https://c.example/"}, M{"id": "a", "type": "A", "serviceEndpoint": []any{"https://a.example/"}}}})
 	r.Extra["documents"] = len(docs)
 	type optCase struct {
 		name string
